@@ -130,7 +130,7 @@ def main():
     rng = random.Random(a.seed * 4099 + 1)
     files = []
     tid = 0
-    for n in [int(x) for x in a.ns.split(",")]:
+    for n in [int(x) for x in a.ns.split(",") if x]:
         NC = 2 ** n
         items = []
         if n <= a.coal_sample_above:
